@@ -56,7 +56,7 @@ Fixpoint has_dup (l : list string) : bool :=
 
 Record hctx := {
   h_decl : option (list string);   (* names declared by the innermost enclosing block; None = no block *)
-  h_crossed : bool;                (* crossed a function boundary since that block *)
+  h_crossed : option string;       (* crossed a function boundary since that block: the label of the issue *)
   h_assigned : list string;        (* temporaries assigned by the enclosing injected sequences, so far *)
   h_live : list string             (* temporaries assigned by enclosing injected sequences (all of them) *)
 }.
@@ -80,24 +80,29 @@ Fixpoint hyg (vp : string) (h : hctx) (n : node) {struct n} : list issue :=
        | Some d => if mem_str name d then [] else [("undeclared", name)]
        | None => [("undeclared", name)]
        end) ++
-      (if h_crossed h then [("crossed", name)] else [])
+      (match h_crossed h with Some lbl => [(lbl, name)] | None => [] end)
   | Some (name, false) => []     (* user identifiers are judged by [clash] below *)
   | None =>
       match n with
       | Node (K KBlock _ _) [cx; Node Lst stmts] =>
           let d := let_names vp stmts in
           (if has_dup d then [("dup-decl", "")] else []) ++
-          kids {| h_decl := Some d; h_crossed := false; h_assigned := []; h_live := [] |} stmts
+          kids {| h_decl := Some d; h_crossed := None; h_assigned := []; h_live := [] |} stmts
       | Node (K KParam _ _) cs =>
-          kids {| h_decl := h_decl h; h_crossed := true; h_assigned := h_assigned h; h_live := h_live h |} cs
+          kids {| h_decl := h_decl h; h_crossed := Some "crossed"; h_assigned := h_assigned h; h_live := h_live h |} cs
+      | Node (K KArrow _ _) (cx :: Node Lst params :: rest) =>
+          (* the parameters of an arrow function are patterns without a Parameter node: their defaults run in the
+             arrow's activation (they are a documented exclusion: nothing is injected there) *)
+          kids {| h_decl := h_decl h; h_crossed := Some "crossed-arrow-parameter"; h_assigned := h_assigned h; h_live := h_live h |} params ++
+          kids h rest
       | Node (K KClassProp _ _) (key :: value :: ta :: Node (Bln false) [] :: rest) =>
           hyg vp h key ++
-          hyg vp {| h_decl := h_decl h; h_crossed := true; h_assigned := h_assigned h; h_live := h_live h |} value
+          hyg vp {| h_decl := h_decl h; h_crossed := Some "crossed"; h_assigned := h_assigned h; h_live := h_live h |} value
       | Node (K KPrivateProp _ _) (cx :: key :: value :: ta :: Node (Bln false) [] :: rest) =>
-          hyg vp {| h_decl := h_decl h; h_crossed := true; h_assigned := h_assigned h; h_live := h_live h |} value
+          hyg vp {| h_decl := h_decl h; h_crossed := Some "crossed"; h_assigned := h_assigned h; h_live := h_live h |} value
       | Node (K KSetterProp _ _) [key; this_param; param; body] =>
           hyg vp h key ++
-          hyg vp {| h_decl := h_decl h; h_crossed := true; h_assigned := h_assigned h; h_live := h_live h |} param ++
+          hyg vp {| h_decl := h_decl h; h_crossed := Some "crossed"; h_assigned := h_assigned h; h_live := h_live h |} param ++
           hyg vp h body
       | Node (K KParen _ _) [Node (K KSeq _ _) [Node Lst es]] =>
           match split_injected vp es with
@@ -121,7 +126,7 @@ Fixpoint hyg (vp : string) (h : hctx) (n : node) {struct n} : list issue :=
                               | Some d => if mem_str t d then [] else [("undeclared", t)]
                               | None => [("undeclared", t)]
                               end) ++
-                             (if h_crossed h then [("crossed", t)] else []) ++
+                             (match h_crossed h with Some lbl => [(lbl, t)] | None => [] end) ++
                              go l' (t :: done)
                          | None => go l' done
                          end)
@@ -218,6 +223,6 @@ Fixpoint clashes (vp : string) (n : node) : list issue :=
   end.
 
 Definition hygiene_issues (vp : string) (out : node) : list issue :=
-  hyg vp {| h_decl := None; h_crossed := false; h_assigned := []; h_live := [] |} out
+  hyg vp {| h_decl := None; h_crossed := None; h_assigned := []; h_live := [] |} out
   ++ unassigned_reads vp [] out
   ++ clashes vp out.
